@@ -151,8 +151,8 @@ pub fn run(tier: Tier, seed: u64) -> i32 {
     let ctx = Ctx::new("C10", tier, seed, "exploration");
     let mut r = Sm::derive(seed, &[10]);
     let settings = space_settings(&mut r, tier == Tier::Thorough);
-    let n_lat = tier.pick(60, 120);
-    let n_rand = tier.pick(20_000, 300_000);
+    let n_lat = tier.pick(60, 150);
+    let n_rand = tier.pick(20_000, 1_000_000);
     par_shards(settings.len(), crate::util::n_threads(), |i| {
         let spec = &settings[i];
         with_kit!(spec, K, kit => check_spec::<K>(&ctx, &kit, seed.wrapping_add(i as u64 * 104729), n_lat, n_rand));
